@@ -73,22 +73,22 @@ type replayFile struct {
 }
 
 var (
-	flagProp    = flag.String("prop", "", "property id")
-	flagTier    = flag.String("tier", "quick", "quick|thorough")
-	flagSeed    = flag.Uint64("seed", 1, "VERIF_SEED")
-	flagFrom    = flag.Uint64("from", 0, "first world index")
-	flagTo      = flag.Uint64("to", 1, "one past last world index")
-	flagReplay  = flag.String("replay", "", "replay file")
-	flagTapeIn  = flag.String("tape", "", "run one world from this tape file (JSON array); prints class")
-	flagTapeOut = flag.String("tapeout", "", "stream every drawn value to this file (for crash attribution)")
-	flagTrace   = flag.Bool("trace", false, "print decoded log")
-	flagOutDir  = flag.String("replaydir", "", "where to write replay files")
-	flagShrink  = flag.Int("shrink", 400, "in-process shrink budget")
+	flagProp       = flag.String("prop", "", "property id")
+	flagTier       = flag.String("tier", "quick", "quick|thorough")
+	flagSeed       = flag.Uint64("seed", 1, "VERIF_SEED")
+	flagFrom       = flag.Uint64("from", 0, "first world index")
+	flagTo         = flag.Uint64("to", 1, "one past last world index")
+	flagReplay     = flag.String("replay", "", "replay file")
+	flagTapeIn     = flag.String("tape", "", "run one world from this tape file (JSON array); prints class")
+	flagTapeOut    = flag.String("tapeout", "", "stream every drawn value to this file (for crash attribution)")
+	flagTrace      = flag.Bool("trace", false, "print decoded log")
+	flagOutDir     = flag.String("replaydir", "", "where to write replay files")
+	flagShrink     = flag.Int("shrink", 400, "in-process shrink budget")
 	flagShrinkSecs = flag.Int("shrinksecs", 45, "wall-clock cap for in-process shrinking")
-	flagTree    = flag.String("tree", "", "tree hash (recorded in replay files)")
-	flagFlavour = flag.String("flavour", "native", "build flavour label")
-	flagDigests = flag.Bool("digests", false, "print per-world digests (determinism self-test)")
-	flagMaxViol = flag.Int("maxviol", 8, "stop shrinking new violations after this many distinct classes")
+	flagTree       = flag.String("tree", "", "tree hash (recorded in replay files)")
+	flagFlavour    = flag.String("flavour", "native", "build flavour label")
+	flagDigests    = flag.Bool("digests", false, "print per-world digests (determinism self-test)")
+	flagMaxViol    = flag.Int("maxviol", 8, "stop shrinking new violations after this many distinct classes")
 )
 
 var currentTier string
